@@ -408,7 +408,8 @@ def stoch_cell(chk, drv, df, cfg, refs, dsid, rec):
         else:
             kw['ps'] = fxs(p)
             kw['masks'] = ';'.join(bits(np.asarray(eval(c, {'df': df, 'np': np}))) for c in cond)
-        rep, _ = drv.ask('stochw', c='f', **kw)
+        # the op runs the definition regenerated from the text of StochasticIPTW.fit (Gen.stoch_iptw_fit)
+        rep, _ = drv.ask('stochw', c='f', hasw=int(bool(wcol)), **kw)
         chk.k(rep['status'] == 'ok' and rep['m'] != '_' and close(unfx(rep['m']), got, **TOLD),
               'StochasticIPTW.marginal_outcome = Lean model on the reference predictions', dict(case, model=rep.get('m')))
 
